@@ -64,3 +64,13 @@ def pick(pool, idx):
         if idx == j:
             return pool[j]
     return pool[n - 1]
+
+
+_TRACING = [False]
+
+
+def symbolic_run():
+    """True while the engine explores the harness symbolically (False during the concrete sweep, witness re-execution and
+    replay). Used only to cut value kinds that CrossHair itself mis-models out of the SYMBOLIC run; they stay in the
+    concrete sweep and every such cut is listed in the obligation's bounds."""
+    return _TRACING[0]
